@@ -45,7 +45,9 @@ def run(cmd, timeout=None, cwd=None, stdin=None, limit_mem=False, env=None):
     def pre():
         os.setsid()
         if limit_mem:
-            lim = (MEM_LIMIT_RETRY_KB if limit_mem == "retry" else MEM_LIMIT_KB) * 1024
+            if limit_mem == "retry": lim = MEM_LIMIT_RETRY_KB * 1024
+            elif limit_mem is True: lim = MEM_LIMIT_KB * 1024
+            else: lim = int(limit_mem) * 1024 * 1024 * 1024      # per-obligation "mem_gb"
             resource.setrlimit(resource.RLIMIT_AS, (lim, lim))
     t0 = time.time()
     p = subprocess.Popen(cmd, stdout=subprocess.PIPE, stderr=subprocess.STDOUT, cwd=cwd, env=env,
@@ -354,7 +356,7 @@ def run_instance(ctx, ob, res, params, retry=False):
             timeout = min(timeout, int(os.environ["VERIF_TIMEOUT_CAP"]))
         cmd = cbmc_cmd(ob, tcfg, cfile, entry, ["--verbosity", "8"], params=params)
         r["checker_cmd"] = " ".join(cmd).replace(ctx.scratch, "$SCRATCH")
-        rc, out, dt, to = run(cmd, timeout=timeout, limit_mem=("retry" if retry else True))
+        rc, out, dt, to = run(cmd, timeout=timeout, limit_mem=("retry" if retry else ob.get("mem_gb", True)))
         r["cbmc_wall_s"] = round(dt, 2)
         if not to and not retry and (rc in (-9, 6, 134) or "out of memory" in out.lower()) and "VERIFICATION SUCCESSFUL" not in out and "VERIFICATION FAILED" not in out:
             r["status"] = "RETRY-ALONE"
